@@ -60,7 +60,7 @@ def check(case: dict):
     params, mz = case["params"], case["maze"]
     g, sol, kind = mz["g"], mz["sol"], mz["kind"]
     tok = call("C06:construct", _tokenizer, json.dumps(params, sort_keys=True))
-    m = L.make_kind(kind, g, sol)
+    m = L.make_kind(kind, g, sol, dtype=L.provenance(case, g))
     toks = call("C06:to_tokens", tok.to_tokens, m)
     require(isinstance(toks, list) and all(isinstance(t, str) for t in toks), "C06:token-types", "to_tokens did not return a list of strings")
     bad = [t for t in toks if t not in vocab()]
